@@ -13,7 +13,8 @@ whitelisted AST subset make the translator raise (-> broken obligation + failing
 Tie 2 (correspondence): random small projects (module under test + up to two dependency modules:
 imports, re-exports, aliases, lambdas, cached / decorated / async functions, classes with public /
 protected / private / dunder / mangled-looking members, static / class methods, properties, nested
-classes, borrowed functions, abstract classes, enums, inheritance inside and across modules) are written
+classes, borrowed functions, abstract classes, enums, inheritance inside and across modules, classes named like
+the foreign class they inherit from — `class N(dep.N)`, `class N(Alias)`, `class N(N)` —) are written
 to a scratch directory, imported, and analysed by the real `generate_test_cluster` under a random
 visibility and random ignore lists.  The harness' own `inspect` view of the imported modules is handed to
 the Lean model (`Driver/C27.lean`), which must predict the same set of accessibles under test.
@@ -25,6 +26,7 @@ eligible under the visibility and which is not ignored by configuration; forbidd
 module, ineligible name, or ignored; optional = what the property does not speak about (coroutines,
 `main*` / `test*` functions, abstract constructors, empty enums, nested classes, class methods,
 properties, inherited or borrowed members of the module's own classes).
+On the objects: the function behind every method / function under test has `__module__ ==` the module under test.
 """
 from __future__ import annotations
 
@@ -511,13 +513,21 @@ class Gen:
     def cname(self) -> str:
         return self.rng.choice(CLASS_SHAPES).format(self.stem())
 
-    def gen_class(self, mod: str, avail_bases: list[str], funcs_avail: list[str], depth: int = 0) -> dict:
+    def gen_class(self, mod: str, avail_bases: list[str], funcs_avail: list[str], depth: int = 0,
+                  same_name: dict[str, str] | None = None, free_names: list[str] | None = None) -> dict:
+        """`same_name`: base expression -> the class name of the (foreign) class it denotes, offered only when a
+        class of that name may be declared here (`class Handler(base.Handler)`, `class Plugin(BasePlugin)`,
+        `class Handler(Handler)`); `free_names`: names of foreign classes usable for an unrelated class."""
         rng = self.rng
         kind = rng.choices(["plain", "abstract", "enum"], [8, 1, 1])[0] if depth == 0 else "plain"
         name = self.cname()
         bases = []
         if kind == "plain" and avail_bases and rng.random() < 0.45:
             bases = [rng.choice(avail_bases)]   # one base: two could denote the same class / clash in the MRO
+            if same_name and bases[0] in same_name and rng.random() < 0.45:
+                name = same_name[bases[0]]      # the subclass keeps the name of the foreign class it specialises
+        elif free_names and rng.random() < 0.08:
+            name = rng.choice(free_names)       # unrelated class named like a class of another module
         members = []
         seen = set()
         # inside a class body identifiers of the form `__x` are mangled: such targets cannot be referenced there
@@ -559,6 +569,9 @@ class Gen:
         funcs_avail: list[str] = []     # expressions denoting plain functions (local or foreign)
         local_funcs: list[str] = []
         local_classes: list[str] = []
+        bound: set[str] = set()         # names bound at module level so far (a second binding would shadow the first)
+        used_bases: set[str] = set()    # base expressions already used by a class of this module
+        foreign_cls: dict[str, str] = {}   # base expression -> class name of the foreign class it denotes
         for dname, dmod in deps.items():
             how = rng.random()
             dfuncs = [d["name"] for d in dmod["decls"] if d["k"] == "def" and not d["async"] and not d["deco"]]
@@ -566,15 +579,23 @@ class Gen:
             if how < 0.6:
                 decls.append({"k": "import_module", "mod": dname})
                 classes_avail += [f"{dname}.{c}" for c in dclasses if not c.startswith("__")]
+                foreign_cls.update({f"{dname}.{c}": c for c in dclasses if not c.startswith("__")})
                 funcs_avail += [f"{dname}.{f}" for f in dfuncs if not f.startswith("__")]
             for nm in rng.sample(dfuncs, min(len(dfuncs), rng.randint(0, 2))):
                 alias = None if rng.random() < 0.6 else self.fname()
+                if (alias or nm) in bound:
+                    alias = self.fname()
+                bound.add(alias or nm)
                 decls.append({"k": "from_import", "mod": dname, "name": nm, "as": alias})
                 funcs_avail.append(alias or nm)
             for nm in rng.sample(dclasses, min(len(dclasses), rng.randint(0, 2))):
                 alias = None if rng.random() < 0.7 else self.cname()
+                if (alias or nm) in bound:     # two dependencies may declare classes of the same name
+                    alias = self.cname()
+                bound.add(alias or nm)
                 decls.append({"k": "from_import", "mod": dname, "name": nm, "as": alias})
                 classes_avail.append(alias or nm)
+                foreign_cls[alias or nm] = nm
         for _ in range(rng.randint(2, 9)):
             r = rng.random()
             if r < 0.38:
@@ -595,8 +616,19 @@ class Gen:
             elif r < 0.60:
                 decls.append({"k": "const", "name": self.fname()})
             else:
-                c = self.gen_class(mod, classes_avail + local_classes, funcs_avail)
+                # a class may take the name N of the foreign class it inherits from when N is not bound yet, or
+                # when N is bound to that very base and no earlier class used it (`from dep import N; class N(N)`:
+                # from then on N denotes the local class)
+                same = {e: n for e, n in foreign_cls.items()
+                        if e in classes_avail and ((n not in bound) or (e == n and e not in used_bases))}
+                free = sorted({n for n in foreign_cls.values() if n not in bound})
+                c = self.gen_class(mod, classes_avail + local_classes, funcs_avail, same_name=same, free_names=free)
                 decls.append(c)
+                bound.add(c["name"])
+                used_bases.update(c["bases"])
+                if c["name"] in classes_avail:      # `class N(N)` shadowed the imported name
+                    classes_avail.remove(c["name"])
+                    foreign_cls.pop(c["name"], None)
                 if c["kind"] == "plain":
                     local_classes.append(c["name"])
                     for m in c["members"]:
@@ -751,10 +783,15 @@ def ground_truth(case: dict) -> dict:
             gt[key] = status(home, key[2], None, True, "borrowed") if home == root else \
                 {"status": "forbidden", "why": "foreign", "form": "borrowed"}
     # inherited members: listed under the subclass they are not "defined" there
-    def resolve_base(mod: str, expr: str):
+    def resolve_base(mod: str, expr: str, own: str):
+        """`own`: top-level name of the class whose base list contains `expr` (`class N(N)` names the imported N;
+        for every other class of the module a local top-level class N wins: the generator lets nothing use an
+        imported N as a base before a local class N is declared)."""
         parts = expr.split(".")
         if parts[0] in case["modules"] and len(parts) > 1:
             return parts[0], ".".join(parts[1:])
+        if parts[0] != own and (mod, parts[0]) in classes:
+            return mod, expr
         for d in case["modules"][mod]["decls"]:
             if d["k"] == "from_import" and (d["as"] or d["name"]) == parts[0]:
                 return d["mod"], ".".join([d["name"]] + parts[1:])
@@ -766,7 +803,7 @@ def ground_truth(case: dict) -> dict:
             return
         seen.add((mod, qual))
         for b in c["bases"]:
-            bm, bq = resolve_base(mod, b)
+            bm, bq = resolve_base(mod, b, qual.split(".")[0])
             bc = classes.get((bm, bq))
             if bc is None:
                 continue
@@ -799,14 +836,19 @@ def _is_function(v) -> bool:
                                      and inspect.isfunction(inspect.unwrap(v)))
 
 
-def _defined_here(cls, fn) -> bool:
+def _definer(fn):
+    """The class OBJECT a function was defined in: what the class part of its `__qualname__` denotes in the
+    module it was defined in (an identity, not a name: `class Handler(base.Handler)` and its base share the
+    `__qualname__`, the inherited methods still belong to the other class object)."""
     module = inspect.getmodule(fn)
     attr = fn.__qualname__.split(".<locals>", 1)[0].rsplit(".", 1)[0]
-    if module is not None and hasattr(module, attr):
-        owner = getattr(module, attr)
-        if isinstance(owner, type):
-            return owner is cls
-    return getattr(fn, "__objclass__", None) is cls
+    if module is None or not hasattr(module, attr):
+        return None
+    owner = getattr(module, attr)
+    if isinstance(owner, type):
+        return owner
+    owner = getattr(fn, "__objclass__", None)
+    return owner if isinstance(owner, type) else None
 
 
 def _lambda_name(fn) -> str | None:
@@ -836,8 +878,9 @@ def extract_env(root_mod, generated: set[str]) -> dict:
         cls_out.append(entry)
         meths = []
         for name, fn in inspect.getmembers(c, inspect.isfunction):
+            owner = _definer(fn)
             meths.append({"name": name, "qualified": f"{fn.__module__}.{fn.__qualname__}",
-                          "definedHere": _defined_here(c, fn),
+                          "definer": class_id(owner) if owner is not None else None,
                           "isCoroutine": inspect.iscoroutinefunction(fn) or inspect.isasyncgenfunction(fn)})
         is_enum = issubclass(c, enum.Enum)
         entry.update({"module": c.__module__, "qualname": c.__qualname__, "isAbstract": inspect.isabstract(c),
@@ -1007,7 +1050,14 @@ class C27(PropertyCheck):
             except Exception as e:  # noqa: BLE001
                 return {"out": {"err": type(e).__name__, "msg": str(e)[:200]}, "env": env}
             items = []
+            foreign = []   # methods / functions under test whose function object was defined in another module
             for a in cluster.accessible_objects_under_test:
+                if a.is_method() or a.is_function():
+                    fn = inspect.unwrap(a.callable) if isinstance(a.callable, functools._lru_cache_wrapper) else a.callable
+                    home = getattr(fn, "__module__", None)
+                    if home != case["root"]:
+                        foreign.append(["meth", a.owner.full_name, a.method_name, str(home), str(getattr(fn, "__qualname__", None))]
+                                       if a.is_method() else ["func", str(home), a.function_name, str(home), str(getattr(fn, "__qualname__", None))])
                 if a.is_enum():
                     items.append(["enum", a.owner.full_name])
                 elif a.is_constructor():
@@ -1018,7 +1068,7 @@ class C27(PropertyCheck):
                     items.append(["func", str(getattr(a.callable, "__module__", None)), a.function_name])
                 else:
                     items.append(["other", type(a).__name__])
-            return {"out": {"under_test": sorted(items)}, "env": env}
+            return {"out": {"under_test": sorted(items), "foreign_callables": sorted(foreign)}, "env": env}
         finally:
             config.configuration = old_cfg
             for nm in names:
@@ -1062,6 +1112,15 @@ class C27(PropertyCheck):
                 fails.append(Failure({"class": g["why"] + "-under-test", "kind": it[0], "vis": vis, "form": g["form"]},
                                      f"{list(it)} is under test although it is {g['why']} "
                                      f"(visibility {vis}, ignore_modules={case['ignore_modules']}, ignore_methods={case['ignore_methods']})"))
+        # the clause itself, on the objects: the function behind a method / function under test carries the module it
+        # was defined in; "nothing defined in another module is marked as under test"
+        for it in impl_out.get("foreign_callables", []):
+            key = tuple(it[:3])
+            if gt.get(key, {}).get("status") == "forbidden":
+                continue    # already reported above from the declarations
+            fails.append(Failure({"class": "foreign-under-test", "kind": it[0], "vis": vis, "form": "callable-module"},
+                                 f"{it[:3]} is under test but its function object {it[3]}.{it[4]} was defined in module "
+                                 f"{it[3]}, not in {root} (visibility {vis})"))
         for key, g in sorted(gt.items()):
             if g["status"] == "demanded" and key not in actual:
                 sig = {"class": "eligible-missing", "kind": key[0], "vis": vis, "form": g["form"]}
